@@ -98,6 +98,17 @@ def oracle(ck, extended):
             yl, yh = make_pyramid(rng, 2, nb, c, (gen.pick_len(rng, L, 18), gen.pick_len(rng, L2, 18)), L, L2 if four else L, m, J)
             filt = (g0, g1, gen.int_filter(rng, L2), gen.int_filter(rng, L2)) if four else (g0, g1)
             rt.guard(ck, oracle_inv, ck, 2, m, filt, yl, yh)
+    # the extremes of the filter range: the longest wavelets over a run of CONSECUTIVE band lengths (whatever an
+    # implementation switches on - filter length, size parity, a fast length - changes somewhere in such a run), 1-D and 2-D
+    for name in ('db38', 'coif17'):
+        w = pywt.Wavelet(name); L = w.dec_len
+        for n in (range(L // 2, L // 2 + 40) if not q else range(L // 2, L // 2 + 40, 1)):
+            m = gen.MODES5[n % 5]
+            yl = gen.float_tensor(ck.nprng, (1, 1, n)); yh = [gen.float_tensor(ck.nprng, (1, 1, n))]
+            rt.guard(ck, oracle_inv, ck, 1, m, (np.array(w.rec_lo), np.array(w.rec_hi)), yl, yh, tol=1e-9, named=name)
+        for (a, b) in [(L // 2 + 3, 40), (41, L // 2 + 6)]:
+            yl = gen.float_tensor(ck.nprng, (1, 1, a, b)); yh = [gen.float_tensor(ck.nprng, (1, 1, 3, a, b))]
+            rt.guard(ck, oracle_inv, ck, 2, rng.choice([0, 1, 6]), (np.array(w.rec_lo), np.array(w.rec_hi)), yl, yh, tol=1e-9, named=name)
     for name in named_wavelets(rng, 40 if q else 106):
         w = pywt.Wavelet(name); L = w.dec_len
         m = rng.choice(gen.MODES5); J = rng.randint(1, 3)
